@@ -26,6 +26,7 @@ def run_check(prop, tier='quick', overrides=None, quiet=False, replay=None, writ
             R.only = (o['rule'], o['construct'], str(o['token']))
             print('replaying obligation rule=%s construct=%s token=%s' % R.only)
         ctx = Ctx(Model(overrides=overrides), K=2 if tier == 'quick' else 3, depth=3 if tier == 'quick' else 4, tier=tier)
+        R.private_prefixes = tuple(sorted('%s.%s.' % (b.module.name, b.name) for b in ctx.model.private_bases))
         R.count('modules', ctx.model.stats['modules'])
         R.count('classes', ctx.model.stats['classes'])
         R.count('functions_in_package', ctx.model.stats['functions'])
